@@ -39,6 +39,9 @@ type Engine struct {
 
 	MaxSteps    int
 	Unwind      int
+	SymUnwind   int // bound on symbolically feasible back edges along one path
+	JobWall     time.Duration // wall-clock limit per job (a job that exceeds it is inconclusive)
+	jobStart    time.Time
 	PermuteMaps bool
 	NoMerge     bool
 	NoPCRestore bool
@@ -93,7 +96,7 @@ func Load(dir string, overlay map[string][]byte, patterns ...string) (*Engine, e
 	prog.Build()
 	e := &Engine{
 		prog: prog, pkgs: pkgs, ssaPkgs: map[string]*ssa.Package{},
-		MaxSteps: 400_000_000, Unwind: 4_000_000,
+		MaxSteps: 400_000_000, Unwind: 4_000_000, SymUnwind: 800, JobWall: 20 * time.Minute,
 		objs: map[int]*Object{}, globals: map[*ssa.Global]*Object{}, fnInfos: map[*ssa.Function]*fnInfo{},
 		errMsgs: map[int]string{}, feasCache: map[int]bool{}, constCache: map[*ssa.Const]Value{},
 		funcsSeen: map[string]bool{}, modelsHit: map[string]bool{}, stdGlobal: map[string]bool{},
@@ -444,6 +447,8 @@ func (e *Engine) RunJob(j Job) (res JobResult) {
 	st := e.base.fork()
 	st.written = map[int]bool{}
 	st.steps = 0
+	st.symBack = 0
+	e.jobStart = time.Now()
 	outs := e.call(st, fn, args, nil, 1)
 	res.Paths = len(outs)
 	for _, o := range outs {
